@@ -162,9 +162,28 @@ def _install_refs(w):
     def construct_ext(it, cls, args, kwargs, node):
         import dataclasses
         if dataclasses.is_dataclass(cls) and cls.__module__.startswith("graphql"):
-            # a (frozen) dataclass instance: a new symbolic object; its fields are not tracked
-            w.trusted_used.add(f"constructor of dataclass {cls.__name__}: total, returns a new object "
-                               "(keyword validity is not checked here)")
+            # a (frozen) dataclass instance: a new symbolic object; its fields are not tracked.
+            # The generated __init__ raises TypeError for unknown / missing / surplus arguments.
+            flds = [f for f in dataclasses.fields(cls) if f.init]
+            pos = [f for f in flds if not f.kw_only]
+            names = {f.name for f in flds}
+            given = set(kwargs) | {f.name for f in pos[:len(args)]}
+            missing = [f.name for f in flds if f.name not in given
+                       and f.default is dataclasses.MISSING
+                       and f.default_factory is dataclasses.MISSING]
+            bad = (len(args) > len(pos) or any(k not in names for k in kwargs)
+                   or any(f.name in kwargs for f in pos[:len(args)]) or bool(missing))
+            if hasattr(cls, "__post_init__"):
+                raise Unsupported(f"dataclass {cls.__name__} with __post_init__")
+            w.trusted_used.add(f"constructor of dataclass {cls.__name__}: model of the generated "
+                               "__init__ (TypeError for unknown, missing or surplus arguments; "
+                               "otherwise a new object whose fields are not tracked)")
+            if not it.st.spec:
+                from .interp import _src as _s
+                text = _s(node)[:80]
+                it.note_safe("SAFE-Call", text, getattr(node, "lineno", 0))
+                if bad:
+                    it.throw(TypeError, node, "SAFE-Call", text)
             return VRef(z3.Const(it.namer.fresh(cls.__name__.lower()), RefS), cls)
         return prev_construct(it, cls, args, kwargs, node)
     w.construct_ext = construct_ext
